@@ -2,6 +2,7 @@ import FxVerif.Proofs.C03View
 import FxVerif.Proofs.C03Prog
 import FxVerif.Proofs.C03Refine
 import FxVerif.Proofs.C03Legacy
+import FxVerif.Proofs.C03Addr
 
 /-!
 # C03 — the executed event is field-for-field the event the quorum voted for
@@ -1163,5 +1164,75 @@ example : (run (fun c => c.path) (fun _ _ => true) {} (legacyOps ++ [.vote 2 (.b
 /-- non-vacuity: after `legacyOps` there are two attestations (the two conflicting bridge calls), each under its own key -/
 example : ((run (fun c => c.path) (fun _ _ => true) {} legacyOps).atts.map fun a => a.claim.path == a.hash) = [true, true] := by
   decide +kernel
+
+/-! ## address texts and accounts (round 5) -/
+
+section Addresses
+open FxVerif.Model.C03.Addr
+
+
+/-- two accepted texts of the tron account 0102…14: version byte 0x41 (the real one) and 0x42; both have a valid
+base58check checksum (executed: `tronValid`, and compared with the real `ValidateTronAddress` by the harness) -/
+def tronA : Str := "TA4Y62o6YC2Zsck9rZVGTvqW1AQ7X9zTnj".toList
+def tronA' : Str := "TZQ9596PFNVSh3tEsypax47Hdff4DKLkmj".toList
+
+/-- tron class: SEVERAL well-formed texts name one account — the conversion drops the version byte, the validator does
+not check it -/
+theorem tron_class_admits_several_texts :
+    ∃ s₁ s₂ : Str, s₁ ≠ s₂ ∧ isExtAddr .tron s₁ = true ∧ isExtAddr .tron s₂ = true
+      ∧ extHex .tron s₁ = extHex .tron s₂ ∧ tronAcc s₁ = tronAcc s₂ ∧ textsPerAccount .tron = .several :=
+  ⟨tronA, tronA', by decide, by decide, by decide, by decide, by decide, rfl⟩
+
+/-- for EVERY text: whatever the version byte of a 21-byte payload, both conversions return the 20 bytes after it -/
+theorem tron_version_byte_dropped (s : Str) (v : Nat) (acc chk : List Nat) (hs : splitCheck s = some (v :: acc, chk))
+    (hl : acc.length = 20) : extHex .tron s = acc ∧ tronAcc s = acc :=
+  FxVerif.Proofs.C03Addr.tronHex_of_payload hs hl
+
+example : splitCheck tronA = some (0x41 :: (List.range 20).map (· + 1), [214, 196, 8, 44]) := by decide
+example : splitCheck tronA' = some (0x42 :: (List.range 20).map (· + 1), [172, 201, 206, 134]) := by decide
+
+/-- eth class: for ALL pairs of well-formed texts, one account ⇒ the texts agree up to the letter case of their hex
+digits (which the EIP-55 checksum — Keccak, not modelled — then fixes): one accepted text per account -/
+theorem eth_class_one_text_per_account (s₁ s₂ : Str) (h₁ : isExtAddr .eth s₁ = true) (h₂ : isExtAddr .eth s₂ = true)
+    (h : extHex .eth s₁ = extHex .eth s₂) : s₁.map lowerC = s₂.map lowerC ∧ textsPerAccount .eth = .one :=
+  ⟨FxVerif.Proofs.C03Addr.ethHex_injective_up_to_case h₁ h₂ h, rfl⟩
+
+example : isExtAddr .eth ethA = true ∧ extHex .eth ethA = List.replicate 19 0 ++ [1] := by decide
+example : extHex .eth "0x00000000000000000000000000000000000000aB".toList
+    = extHex .eth "0x00000000000000000000000000000000000000Ab".toList := by decide
+
+/-- a bridge call on tron with one token -/
+def wTronCall : MsgBridgeCallClaim :=
+  { ChainName := "tron".toList, BridgerAddress := bech, EventNonce := 1, BlockHeight := 1, Sender := tronA, Refund := tronA,
+    TokenContracts := [tronA], Amounts := [some 5], To := tronA, Data := [], Value := some 0, Memo := [], TxOrigin := tronA }
+
+/-- the handlers look a bridge token up by the TEXT of its contract (regenerated `handlerView`: `TokenContracts` is read as
+it is, not through a typed accessor) … -/
+theorem bridgeCall_tokens_read_as_text (c : MsgBridgeCallClaim) :
+    (⟨"BridgeCallHandler", "TokenContracts", [.strs c.TokenContracts]⟩ : HEntry) ∈ c.handlerView := by
+  simp [MsgBridgeCallClaim.handlerView]
+
+/-- … so a claim hash over the typed accessors would tally together two events the handlers tell apart: on tron there are
+well-formed bridge calls with the same accounts everywhere (and every other field equal) whose regenerated handler views
+differ — while the generated `path` (over the texts) separates them -/
+theorem typed_accessor_hash_would_collide_on_tron :
+    ∃ c₁ c₂ : MsgBridgeCallClaim, (AnyClaim.bc c₁).wellFormed = true ∧ (AnyClaim.bc c₂).wellFormed = true
+      ∧ typedAddrs .tron c₁ = typedAddrs .tron c₂
+      ∧ { c₁ with TokenContracts := [] } = { c₂ with TokenContracts := [] }
+      ∧ c₁.handlerView ≠ c₂.handlerView ∧ c₁.path ≠ c₂.path :=
+  ⟨wTronCall, { wTronCall with TokenContracts := [tronA'] }, by decide, by decide, by decide, by decide, by decide, by decide⟩
+
+/-- same path ⇒ every handler receives the same VALUE through every entry of the view (typed accessors evaluated) -/
+theorem handler_values_are_voted (c₁ c₂ : AnyClaim) (w₁ : c₁.wellFormed = true) (w₂ : c₂.wellFormed = true)
+    (h : c₁.path = c₂.path) : c₁.handlerView.map entryValue = c₂.handlerView.map entryValue := by
+  rw [handler_view_is_voted c₁ c₂ w₁ w₂ h]
+
+/-- the converse fails exactly where `textsPerAccount = .several`: two texts of one SENDER account are one event as far as
+the handlers go (equal values), yet they are two paths — filed in two attestations, never tallied together (harmless: the
+hash is finer than it need be, never coarser) -/
+example : (wTronCall.handlerView.map entryValue = ({ wTronCall with Sender := tronA' } : MsgBridgeCallClaim).handlerView.map entryValue)
+    ∧ wTronCall.path ≠ ({ wTronCall with Sender := tronA' } : MsgBridgeCallClaim).path := by decide
+
+end Addresses
 
 end FxVerif.Props.C03
